@@ -251,10 +251,10 @@ func tCmp(op string, a, b *Term) *Term {
 
 // ---- pointer constructors
 
-func pNew(k int) *Term           { return mk("Ptr", "zz_new", intLit(int64(k))) }
-func pGlob(k int) *Term          { return mk("Ptr", "zz_glob", intLit(int64(k))) }
-func pFld(b *Term, i int) *Term  { return mk("Ptr", "zz_fld", b, intLit(int64(i))) }
-func pElem(b, i *Term) *Term     { return mk("Ptr", "zz_elem", b, i) }
+func pNew(k int) *Term          { return mk("Ptr", "zz_new", intLit(int64(k))) }
+func pGlob(k int) *Term         { return mk("Ptr", "zz_glob", intLit(int64(k))) }
+func pFld(b *Term, i int) *Term { return mk("Ptr", "zz_fld", b, intLit(int64(i))) }
+func pElem(b, i *Term) *Term    { return mk("Ptr", "zz_elem", b, i) }
 func isCtor(t *Term) bool {
 	switch t.Op {
 	case "zz_new", "zz_glob", "zz_fld", "zz_elem", "zz_nilptr", "zz_ext":
@@ -362,13 +362,13 @@ type Decls struct {
 	order []string
 	seen  map[string]bool
 	// struct sorts
-	structs map[string]*types.Struct
-	tids    map[string]int
-	tidTy   map[string]types.Type
+	structs    map[string]*types.Struct
+	tids       map[string]int
+	tidTy      map[string]types.Type
 	structBase map[string]int
 	structPkg  map[string]string
-	tidSym  map[string]string
-	facts   []*Term // global axioms (ground facts about symbols)
+	tidSym     map[string]string
+	facts      []*Term // global axioms (ground facts about symbols)
 }
 
 func newDecls() *Decls {
